@@ -76,4 +76,9 @@ CHECKS = {
   text='filter_stats/sort_stats/get_sorted/get_list_of_types on random Entry dictionaries (None fields, near-equal times, duplicates across num_restarts). Runs (1-4 steps/block, 1-2 levels, scripted restarts anywhere, repeated restarts, dt changes) with LogSolution, LogWork, LogRestarts, LogStepSize, LogSDCIterations: '
        'recomputed=False must leave exactly one record per accepted step and type at the true start/end time; niter == iteration callbacks; work counters == calls counted; logged dt/residual/solution equal the accepted attempt; first-slot restart counts; real-stats filters == comprehensions.',
   note='Known finding F6 is delimited by a reference filter on ideal records (every attempt keyed with its true restart count): only times where even ideal records cannot be filtered are attributed to it. LogSDCIterations accumulates over attempts sharing a key (increment semantics) and is only checked for presence. F5 (LogWork) fixed.'),
+ 'C12': dict(
+  technique='property-based testing over a reflection-built registry of all importable problem classes: manufactured right-hand sides with a validity predicate, byte snapshots, sibling sums, Richardson-differentiated closed-form solutions',
+  text='All 59 importable problem classes are discovered by reflection (an unregistered class is a failure). For each class/variant (solver types, boundary conditions, parameters) states are generated from the exact solution plus bounded perturbations; rhs = u* - factor*f_impl(u*,t) is solved from a perturbed guess for 2-3 factors per instance (0, 1e-9..1e2, near-equal pairs) '
+       'and |u - factor*f_impl(u,t) - rhs| is judged against the configured tolerance; arguments must stay bit-identical; factor 0 returns rhs; spectral classes are judged on the linear system they state incl. boundary rows; split siblings sum to the unsplit right-hand side; 13 closed-form ODE solutions are differentiated numerically and compared with eval_f, and u_exact(0) with the configured u0.',
+  note='Factor ranges are narrowed for Newton classes (<= 1e-1, Quench <= 10). Documented dummy solvers (ExactDiscontinuousTestODE, polynomial_testequation*) are judged on immutability only; Hamiltonian particle classes have no implicit solve. Known findings F11 (allencahn_front_semiimplicit) and F17 (advectiondiffusion1d_implicit at the Nyquist mode); F18, F19 fixed.'),
 }
